@@ -4,7 +4,7 @@ Confirm a seeded defect (patch.diff + demo test + meta.json) in a scratch worktr
   1. clean worktree: demo passes;  2. patched: builds, baseline tests of the touched packages still pass, demo fails;
   3. VERIF_REPO=<worktree> bin/check <ID> for each check -> exit code and VIOLATION lines.
 /repo itself is never touched. Prints a JSON summary; the worktree is removed at the end."""
-import argparse, json, os, re, shutil, subprocess, sys, tempfile
+import argparse, json, os, re, shlex, shutil, subprocess, sys, tempfile
 ap = argparse.ArgumentParser(); ap.add_argument("seed"); ap.add_argument("--checks", default=""); ap.add_argument("--tier", default="quick"); ap.add_argument("--keep", action="store_true")
 a = ap.parse_args()
 seed = os.path.abspath(a.seed)
@@ -30,7 +30,7 @@ try:
     demo_dst = os.path.join(wt, meta["demo_path"])
     os.makedirs(os.path.dirname(demo_dst), exist_ok=True)
     shutil.copy(demo_src, demo_dst)
-    rc, out = sh(meta["demo_run"].split(), cwd=wt)
+    rc, out = sh(shlex.split(meta["demo_run"]), cwd=wt)
     res["demo_clean_pass"] = rc == 0
     if rc != 0: res["demo_clean_out"] = out[-1500:]
     pkgs = sorted({"./" + os.path.dirname(f) + "/" for f in meta.get("files_changed", []) if f.endswith(".go")})
@@ -48,7 +48,7 @@ try:
     rc, out = sh(["go", "build"] + pk, cwd=wt, e=dict(env, CGO_ENABLED="0"))
     res["builds"] = rc == 0
     if rc != 0: res["build_out"] = out[-1500:]
-    rc, out = sh(meta["demo_run"].split(), cwd=wt)
+    rc, out = sh(shlex.split(meta["demo_run"]), cwd=wt)
     res["demo_patched_fails"] = rc != 0
     os.remove(demo_dst)
     rc, out = sh([os.path.join(os.path.dirname(os.path.dirname(os.path.abspath(__file__))), "bin/baseline_off")] + pkgs, e=dict(env, VERIF_REPO=wt))
